@@ -90,6 +90,14 @@ enum Src {
     /// a slice of a longer tuple / string (the iterators work relative to the slice bounds)
     TupleSlice(Vec<V>),
     StrSlice(String),
+    /// objects with `@next` AND `@iterator` (`@next` wins on every entry path): `@iterator` returns
+    /// self / a restarted object / an unrelated iterable
+    ObjSelf(Vec<V>),
+    ObjFresh(Vec<V>),
+    ObjOther(Vec<V>),
+    /// objects with only `@iterator`, returning a fresh `@next` object / a tuple
+    ItObj(Vec<V>),
+    ItList(Vec<V>),
 }
 
 #[derive(Clone, Debug, PartialEq)]
@@ -176,6 +184,10 @@ enum Cons {
     Copy(usize, bool),
     /// `.peekable()` on the pipeline, then operations n = next, b = next_back, p = peek, q = peek_back
     PeekOps(Vec<char>),
+    /// the iterable value itself consumed through one entry path (`path`), after `pre` ×
+    /// `iterator.next(value)`, followed by one more `iterator.next(value)`; `via_iter`: the value is
+    /// first turned into an iterator with `.iter()`
+    Entry { via_iter: bool, pre: usize, path: &'static str },
     /// `sum(init)` / `product(init)` with an explicit initial value
     SumInit(V),
     ProductInit(V),
@@ -203,6 +215,7 @@ impl Cons {
                 format!("(calls{})", ds.iter().map(|d| if *d { " n" } else { " b" }).collect::<String>())
             }
             Cons::Advance(n) => format!("(advance {})", n),
+            Cons::Entry { .. } => unreachable!("rendered by make_entry_case"),
             Cons::SumInit(v) => format!("(suminit {})", v.canon()),
             Cons::ProductInit(v) => format!("(productinit {})", v.canon()),
             Cons::Copy(k, f) => format!("(copy {} {})", k, *f as u8),
@@ -248,6 +261,7 @@ impl Cons {
             Cons::Simple("minmax") => one("it.min_max()".into()),
             Cons::Simple("fold") => one("it.fold(0, fold_fn)".into()),
             Cons::Simple("foldpair") => one("it.fold((), fold_pair)".into()),
+            Cons::Entry { .. } => unreachable!("rendered by make_entry_case"),
             Cons::SumInit(v) => one(format!("it.sum({})", v.koto())),
             Cons::ProductInit(v) => one(format!("it.product({})", v.koto())),
             Cons::Simple("for") => vec![
@@ -374,6 +388,11 @@ fn render_src(s: &Src, id: usize, defs: &mut Vec<String>) -> (String, String) {
         Src::GenObj(xs) => (format!("mk_genobj({}, {})", id, tuple_lit(xs)), format!("(gen {}{})", id, canon_list(xs))),
         Src::Obj(xs) => (format!("mk_obj({}, {})", id, tuple_lit(xs)), format!("(obj {}{})", id, canon_list(xs))),
         Src::ObjB(xs) => (format!("mk_objb({}, {})", id, tuple_lit(xs)), format!("(objb {}{})", id, canon_list(xs))),
+        Src::ObjSelf(xs) => (format!("mk_obj_self({}, {})", id, tuple_lit(xs)), format!("(obj {}{})", id, canon_list(xs))),
+        Src::ObjFresh(xs) => (format!("mk_obj_fresh({}, {})", id, tuple_lit(xs)), format!("(obj {}{})", id, canon_list(xs))),
+        Src::ObjOther(xs) => (format!("mk_obj_other({}, {})", id, tuple_lit(xs)), format!("(obj {}{})", id, canon_list(xs))),
+        Src::ItObj(xs) => (format!("mk_itobj({}, {})", id, tuple_lit(xs)), format!("(obj {}{})", id, canon_list(xs))),
+        Src::ItList(xs) => (format!("mk_itlist({})", tuple_lit(xs)), format!("(seq{})", canon_list(xs))),
         Src::Rep(v, n) => (format!("iterator.repeat({}, {})", v.koto(), n), format!("(rep {} {})", v.canon(), n)),
         Src::Once(v) => (format!("iterator.once({})", v.koto()), format!("(rep {} 1)", v.canon())),
         Src::RepInf(v) => (format!("iterator.repeat({})", v.koto()), format!("(repinf {})", v.canon())),
@@ -495,7 +514,18 @@ impl Pipe {
     }
     fn nonempty_source(&self) -> bool {
         self.has_src(&|s| match s {
-            Src::List(x) | Src::Tuple(x) | Src::Gen(x) | Src::GenObj(x) | Src::Obj(x) | Src::ObjB(x) | Src::TupleSlice(x) => !x.is_empty(),
+            Src::List(x)
+            | Src::Tuple(x)
+            | Src::Gen(x)
+            | Src::GenObj(x)
+            | Src::Obj(x)
+            | Src::ObjB(x)
+            | Src::TupleSlice(x)
+            | Src::ObjSelf(x)
+            | Src::ObjFresh(x)
+            | Src::ObjOther(x)
+            | Src::ItObj(x)
+            | Src::ItList(x) => !x.is_empty(),
             Src::Map(x) => !x.is_empty(),
             Src::Range(a, b, incl) => a < b || (a == b && *incl),
             Src::Str(s) | Src::Bytes(s) | Src::StrSlice(s) => !s.is_empty(),
@@ -612,6 +642,47 @@ export mk_obj = |k, xs|
       xs[self.i - 1]
     else
       null
+
+export mk_obj_self = |k, xs|
+  i: 0
+  @next: ||
+    emit 0, k, self.i
+    if self.i < size xs
+      self.i += 1
+      xs[self.i - 1]
+    else
+      null
+  @iterator: || self
+
+export mk_obj_fresh = |k, xs|
+  i: 0
+  @next: ||
+    emit 0, k, self.i
+    if self.i < size xs
+      self.i += 1
+      xs[self.i - 1]
+    else
+      null
+  # ignored because of @next; it would restart the iteration
+  @iterator: || mk_obj_fresh(k, xs)
+
+export mk_obj_other = |k, xs|
+  i: 0
+  @next: ||
+    emit 0, k, self.i
+    if self.i < size xs
+      self.i += 1
+      xs[self.i - 1]
+    else
+      null
+  # ignored because of @next
+  @iterator: || 'xyz'
+
+export mk_itobj = |k, xs|
+  @iterator: || mk_obj(k, xs)
+
+export mk_itlist = |xs|
+  @iterator: || xs
 
 export mk_objb = |k, xs|
   i: 0
@@ -742,6 +813,84 @@ struct Case {
     fail_event: Option<String>,
 }
 
+/// is the source value an iterator that keeps its position between entries?
+fn persistent_src(s: &Src) -> bool {
+    matches!(
+        s,
+        Src::Gen(_)
+            | Src::Obj(_)
+            | Src::ObjB(_)
+            | Src::Bytes(_)
+            | Src::Rep(..)
+            | Src::Once(_)
+            | Src::HostBytes(_)
+            | Src::ObjSelf(_)
+            | Src::ObjFresh(_)
+            | Src::ObjOther(_)
+    )
+}
+
+const ENTRY_PATHS: &[(&str, usize)] = &[
+    // VM instruction path (MakeIterator / IteratorNext)
+    ("for", 0),
+    ("forbreak", 1),
+    ("unpack", 2),
+    // library path (KotoVm::make_iterator)
+    ("tolist", 0),
+    ("iter", 0),
+    ("skip0", 0),
+    ("take2", 1),
+];
+
+/// The iterable value consumed through one entry path; all paths of one mode share the request.
+fn make_entry_case(src: &Src, via_iter: bool, pre: usize, path: &'static str) -> Case {
+    let mode = ENTRY_PATHS.iter().find(|(p, _)| *p == path).unwrap().1;
+    let r = render(&Pipe::Src(src.clone()));
+    let mut lines = r.defs.clone();
+    if via_iter {
+        lines.push("s0 = s0.iter()".into());
+    }
+    lines.push("emit 9".into());
+    lines.push("p = []".into());
+    for _ in 0..pre {
+        lines.push("x = iterator.next(s0)".into());
+        lines.push("p.push(if x then x.get() else 'END')".into());
+    }
+    lines.push("r = []".into());
+    match path {
+        "for" => {
+            lines.push("for x in s0".into());
+            lines.push("  r.push x".into());
+        }
+        "forbreak" => {
+            lines.push("for x in s0".into());
+            lines.push("  r.push x".into());
+            lines.push("  if size(r) == 2".into());
+            lines.push("    break".into());
+        }
+        "unpack" => {
+            lines.push("a, b, c = s0".into());
+            lines.push("r = [a, b, c]".into());
+        }
+        "tolist" => lines.push("r = s0.to_list()".into()),
+        "iter" => lines.push("r = iterator.iter(s0).to_list()".into()),
+        "skip0" => lines.push("r = s0.skip(0).to_list()".into()),
+        _ => lines.push("r = s0.take(2).to_list()".into()),
+    }
+    lines.push("x = iterator.next(s0)".into());
+    lines.push("(p, r, if x then x.get() else 'END')".into());
+    let persistent = via_iter || persistent_src(src);
+    Case {
+        request: format!("run {} (entry {} {} {}) {}", FUEL, persistent as u8, pre, mode, r.sexp),
+        script: lines.join("\n"),
+        host_bytes_back: false,
+        is_copy: true, // several independent iterations over one source: the per-source order clause does not apply
+        nontrivial: Pipe::Src(src.clone()).nonempty_source(),
+        label: format!("entry-path {}", path),
+        fail_event: None,
+    }
+}
+
 /// The case with a *throwing* callback: the `each(f_ident)` directly on the source is replaced by
 /// `each(mk_fail(v))`, which logs like `f_ident` and then throws when its argument equals `v`. The
 /// request (and so the model run) stays the non-failing pipeline.
@@ -813,7 +962,7 @@ fn admissible(p: &Pipe, c: &Cons) -> bool {
 /// `@next` object? (`Each` and `Skip` pass it on unconditionally; everything else answers itself)
 fn back_reaches_obj(p: &Pipe) -> bool {
     match p {
-        Pipe::Src(Src::Obj(_)) => true,
+        Pipe::Src(Src::Obj(_) | Src::ObjSelf(_) | Src::ObjFresh(_) | Src::ObjOther(_) | Src::ItObj(_)) => true,
         Pipe::Each(_, q) | Pipe::Skip(_, q) => back_reaches_obj(q),
         _ => false,
     }
@@ -865,7 +1014,7 @@ fn elems(flavour: usize, n: usize, base: i64) -> Vec<V> {
         .collect()
 }
 
-const SRC_KINDS: usize = 16;
+const SRC_KINDS: usize = 21;
 
 /// Start values of range sources (selected by the flavour index): small, negative, straddling the
 /// i32 limits (KRange stores bounds that fit in i32 compactly and everything else in the 64-bit
@@ -914,6 +1063,11 @@ fn source(kind: usize, n: usize, flavour: usize, base: i64) -> Src {
         12 => Src::HostBytes(n),
         14 => Src::TupleSlice(xs),
         15 => Src::StrSlice("abédxy".chars().take(n).collect()),
+        16 => Src::ObjSelf(xs),
+        17 => Src::ObjFresh(xs),
+        18 => Src::ObjOther(xs),
+        19 => Src::ItObj(xs),
+        20 => Src::ItList(xs),
         _ => {
             if n == 1 {
                 Src::Once(V::I(base))
@@ -1321,7 +1475,7 @@ fn main() {
     kvh::quiet_panics();
     let args = Args::parse();
     let mut rep = Report::new("C13", &args);
-    rep.rule = "case = (pipeline, consumer); pipelines: every adaptor instance (all callbacks, numeric parameters 0..4) at depth 1 and every ordered pair at depth 2 over every source kind and every source length 0..L (L=3 quick, 5 thorough), every consumer on every source kind/length/element flavour, plus seeded random pipelines of depth 1..4; distinct = distinct request lines; non-trivial = at least one adaptor and a non-empty source".into();
+    rep.rule = "case = (pipeline, consumer); pipelines: every adaptor instance (all callbacks, numeric parameters 0..4) at depth 1 and every ordered pair at depth 2 over every source kind and every source length 0..L (L=3 quick, 5 thorough), every consumer on every source kind/length/element flavour, plus seeded random pipelines of depth 1..4; entry-path cases (each source value consumed through the VM path and the library path, partly consumed before); distinct = distinct request lines; non-trivial = at least one adaptor (or an entry-path / consumer-only case) and a non-empty source".into();
     let open: Vec<String> =
         rep.known_open().iter().filter_map(|e| e.get("id").and_then(|x| x.as_str()).map(|s| s.to_string())).collect();
     let drv = Driver::spawn(&args.driver);
@@ -1347,7 +1501,7 @@ fn main() {
             request: d["request"].as_str().unwrap_or("").to_string(),
             script: d["script"].as_str().expect("script").to_string(),
             host_bytes_back: false,
-            is_copy: d["request"].as_str().unwrap_or("").contains("(copy "),
+            is_copy: ["(copy ", "(copyops ", "(peekcopy ", "(entry "].iter().any(|m| d["request"].as_str().unwrap_or("").contains(m)),
             nontrivial: true,
             label: "replay".into(),
             fail_event: d["fail_event"].as_str().map(|s| s.to_string()),
@@ -1440,6 +1594,20 @@ fn main() {
                 json!({"request": k.request, "script": k.script, "host_bytes_back": k.host_bytes_back})
             })
             .collect();
+        // entry paths over objects with both @next and @iterator (seeded C13-mut11): @next wins everywhere
+        for (src, pre, path) in [
+            (Src::ObjFresh(ints(5)), 2usize, "for"),
+            (Src::ObjFresh(ints(5)), 2, "tolist"),
+            (Src::ObjOther(ints(3)), 0, "for"),
+            (Src::ObjOther(ints(3)), 1, "unpack"),
+            (Src::ObjSelf(ints(4)), 1, "forbreak"),
+            (Src::ItObj(ints(3)), 1, "for"),
+            (Src::ItList(ints(3)), 2, "unpack"),
+            (Src::Gen(ints(4)), 1, "forbreak"),
+        ] {
+            let k = make_entry_case(&src, false, pre, path);
+            arr.push(json!({"request": k.request, "script": k.script}));
+        }
         // error cases: the callback on the source throws at one element
         let e = |p: Pipe| Pipe::Each("ident", Box::new(p));
         let fails: Vec<(Pipe, Cons, i64)> = vec![
@@ -1479,7 +1647,7 @@ fn main() {
                             request: rq.to_string(),
                             script: sc.to_string(),
                             host_bytes_back: c["host_bytes_back"].as_bool().unwrap_or(false),
-                            is_copy: rq.contains("(copy "),
+                            is_copy: ["(copy ", "(copyops ", "(peekcopy ", "(entry "].iter().any(|m| rq.contains(m)),
                             nontrivial: true,
                             label: "corpus".into(),
                             fail_event: c["fail_event"].as_str().map(|s| s.to_string()),
@@ -1497,7 +1665,7 @@ fn main() {
             for flavour in 0..RANGE_BASES.len() {
                 // element flavours for sources that carry arbitrary elements, start values for ranges
                 let ok = flavour == 0
-                    || (flavour < 7 && matches!(kind, 0 | 1 | 2 | 3 | 4 | 8 | 9 | 14))
+                    || (flavour < 7 && matches!(kind, 0 | 1 | 2 | 3 | 4 | 8 | 9 | 14 | 16 | 19))
                     || matches!(kind, 5 | 6);
                 if !ok {
                     continue;
@@ -1512,6 +1680,29 @@ fn main() {
                     for c in &conss {
                         if admissible(p, c) {
                             cx.push(make_case(p, c));
+                        }
+                    }
+                }
+            }
+        }
+    }
+    cx.flush();
+
+    // 1b. entry paths: every source kind consumed as a *value* through the VM instruction path (`for`,
+    //     `for` with `break`, multi-assignment unpacking) and through the library path (consumer, `iterator.iter`,
+    //     adaptor), untouched and partly consumed before, as it is and after `.iter()`; the element sequence and
+    //     the position of the value afterwards must be the same on every path (one model answer per mode)
+    for kind in 0..SRC_KINDS {
+        for n in 0..=max_len {
+            for flavour in [0usize, 5] {
+                if flavour != 0 && !matches!(kind, 5 | 6) {
+                    continue;
+                }
+                let src = source(kind, n, flavour, 10);
+                for via_iter in [false, true] {
+                    for pre in 0..=(n + 1).min(3) {
+                        for (path, _) in ENTRY_PATHS {
+                            cx.push(make_entry_case(&src, via_iter, pre, path));
                         }
                     }
                 }
